@@ -53,9 +53,9 @@ def classify(msg, code):
     return "undecided"
 
 
-def run_verus(rs_path, threads=6, extra=()):
+def run_verus(rs_path, threads=6, extra=(), rlimit=None):
     cmd = ["timeout", str(VERUS_TIMEOUT), "verus", os.path.basename(rs_path), "--output-json", "--time",
-           "--error-format=json", "--multiple-errors", "4", "--rlimit", RLIMIT, "--num-threads", str(threads),
+           "--error-format=json", "--multiple-errors", "4", "--rlimit", str(rlimit or RLIMIT), "--num-threads", str(threads),
            "--no-report-long-running", *extra]
     t0 = time.time()
     p = subprocess.run(cmd, cwd=os.path.dirname(rs_path), capture_output=True, text=True)
@@ -184,6 +184,14 @@ def run_unit(unit, twin=True, threads=6, outdir=None):
         return res
     res["meta"] = meta
     run = run_verus(rs, threads)
+    # A FALSE goal often exhausts the resource limit before Z3 gives up on it ("rlimit exceeded" =
+    # undecided). One retry with five times the limit turns most of these into a definite "postcondition
+    # not satisfied"; on a tree where everything verifies this costs nothing.
+    if not run["timed_out"] and any("rlimit" in (d["message"] or "").lower() for d in run["diags"]):
+        run_hi = run_verus(rs, threads, rlimit=int(RLIMIT) * 5)
+        if not run_hi["timed_out"]:
+            run_hi["retried_with_rlimit"] = int(RLIMIT) * 5
+            run = run_hi
     res["run"] = run
     if run["timed_out"]:
         res["status"] = "undecided"
